@@ -13,6 +13,7 @@
 #include <stdio.h>
 #include <stdlib.h>
 #include <string.h>
+#include <stdarg.h>
 
 #define PATH "/vmem/c02.hdf"
 #define EXTF "/vmem/c02.ext"
@@ -25,7 +26,45 @@ static int32 g_vsref[4], g_vgref[4];
 static uint64_t g_since; /* hash of the ops since the last reopen */
 static int      g_nops;
 
-static uint8 PAT[64];
+static uint8 PAT[256];
+
+/* situations in which the API contract is strained; appended to every signature reported afterwards so that a recorded
+   finding is identified by the history that produces it */
+static char g_ctx[64];
+static int  g_kind[8]; /* storage kind of element (ETAG,r): 0 absent/plain, 1 linked, 2 external, 3 compressed */
+static void
+viol(const char *sig, const char *fmt, ...)
+{
+    char    s2[200], msg[900];
+    va_list ap;
+    va_start(ap, fmt);
+    vsnprintf(msg, sizeof msg, fmt, ap);
+    va_end(ap);
+    snprintf(s2, sizeof s2, "%s%s%s", sig, g_ctx[0] ? "@" : "", g_ctx);
+    mc_violation(s2, "%s", msg);
+}
+/* "(17384,1): compressed stream (coder 1, 9 bytes) does not ..." -> "compressed-stream-coder-bytes-does-not-..." */
+static void
+slug(const char *msg, char *out, size_t cap)
+{
+    const char *p = strstr(msg, "): ");
+    p             = p ? p + 3 : msg;
+    size_t o      = 0;
+    int    dash   = 1;
+    for (; *p && o + 2 < cap && o < 60; p++) {
+        if ((*p >= 'a' && *p <= 'z') || (*p >= 'A' && *p <= 'Z')) {
+            out[o++] = *p;
+            dash     = 0;
+        }
+        else if (!dash) {
+            out[o++] = '-';
+            dash     = 1;
+        }
+    }
+    while (o && out[o - 1] == '-')
+        o--;
+    out[o] = 0;
+}
 
 /* ------------------------------------------------------------------ session */
 static int
@@ -89,24 +128,24 @@ check_pieces(const char *api, uint16_t tag, uint16_t ref, const uint8_t *file, l
     for (int i = 0; i < n; i++) {
         int e = start + i;
         if (e >= next) {
-            mc_violation("datainfo:more-blocks-than-exist", "%s(%u,%u): reports block %d but the element is stored in %d block(s)", api, tag, ref, e, next);
+            viol("datainfo:more-blocks-than-exist", "%s(%u,%u): reports block %d but the element is stored in %d block(s)", api, tag, ref, e, next);
             return;
         }
         if (ext[e].external)
             continue;
         if (off[i] != ext[e].off || len[i] < 0 || len[i] > ext[e].len || (long)off[i] + len[i] > fsize) {
-            mc_violation("datainfo:wrong-location", "%s(%u,%u): block %d reported at offset %d length %d, the independent reader finds it at offset %ld length %ld", api,
+            viol("datainfo:wrong-location", "%s(%u,%u): block %d reported at offset %d length %d, the independent reader finds it at offset %ld length %ld", api,
                          tag, ref, e, (int)off[i], (int)len[i], ext[e].off, ext[e].len);
             return;
         }
         /* the bytes at the reported location are the element's stored stream at that position */
         if (stored && pos + len[i] <= slen && memcmp(file + off[i], stored + pos, (size_t)len[i]) != 0) {
-            mc_violation("datainfo:wrong-bytes", "%s(%u,%u): bytes at reported block %d differ from the element's data", api, tag, ref, e);
+            viol("datainfo:wrong-bytes", "%s(%u,%u): bytes at reported block %d differ from the element's data", api, tag, ref, e);
             return;
         }
         /* every block but the last must be reported with its full length, or data would be missing */
         if (e < next - 1 && len[i] != ext[e].len) {
-            mc_violation("datainfo:short-block", "%s(%u,%u): block %d reported with length %d, it holds %ld bytes of the element", api, tag, ref, e, (int)len[i], ext[e].len);
+            viol("datainfo:short-block", "%s(%u,%u): block %d reported with length %d, it holds %ld bytes of the element", api, tag, ref, e, (int)len[i], ext[e].len);
             return;
         }
         pos += ext[e].len;
@@ -120,11 +159,11 @@ probe_datainfo(const char *api, uint16_t tag, uint16_t ref, info_fn fn, void *ct
 {
     int total = fn(ctx, 0, 0, NULL, NULL);
     if (total == FAIL) {
-        mc_violation("datainfo:count-fails", "%s(%u,%u): the block-count query fails although the element exists (%d stored block(s))", api, tag, ref, next);
+        viol("datainfo:count-fails", "%s(%u,%u): the block-count query fails although the element exists (%d stored block(s))", api, tag, ref, next);
         return;
     }
     if (total != next) {
-        mc_violation("datainfo:wrong-count", "%s(%u,%u): reports %d block(s), the independent reader finds %d", api, tag, ref, total, next);
+        viol("datainfo:wrong-count", "%s(%u,%u): reports %d block(s), the independent reader finds %d", api, tag, ref, total, next);
         return;
     }
     mc_count("datainfo_queries", 1);
@@ -136,17 +175,17 @@ probe_datainfo(const char *api, uint16_t tag, uint16_t ref, info_fn fn, void *ct
         int got = fn(ctx, 0, (unsigned)k, off, len);
         if (got == FAIL) {
             if (total > 0)
-                mc_violation("datainfo:fails", "%s(%u,%u): fails with info_count %d although %d block(s) exist", api, tag, ref, k, total);
+                viol("datainfo:fails", "%s(%u,%u): fails with info_count %d although %d block(s) exist", api, tag, ref, k, total);
         }
         else {
             int want = k < total ? k : total;
             if (got != want && got != total)
-                mc_violation("datainfo:wrong-return", "%s(%u,%u): info_count %d of %d blocks: returned %d", api, tag, ref, k, total, got);
+                viol("datainfo:wrong-return", "%s(%u,%u): info_count %d of %d blocks: returned %d", api, tag, ref, k, total, got);
             else
                 check_pieces(api, tag, ref, file, fsize, off, len, want, 0, ext, next, stored, slen);
             for (int i = want; i < k; i++)
                 if (off[i] != -77 || len[i] != -77) {
-                    mc_violation("datainfo:writes-unused-entries", "%s(%u,%u): entry %d beyond the %d existing blocks was modified", api, tag, ref, i, total);
+                    viol("datainfo:writes-unused-entries", "%s(%u,%u): entry %d beyond the %d existing blocks was modified", api, tag, ref, i, total);
                     break;
                 }
         }
@@ -204,18 +243,24 @@ verify_file(const char *when)
     memset(&fc, 0, sizeof fc);
     fc.ext_open = ext_open;
     if (fc_parse(&fc, bytes, fsize) != 0) {
-        mc_violation("format:descriptor-level", "%s: the independent reader rejects the file: %s", when, fc.err[0]);
+        char sl[80], sg[120];
+        slug(fc.err[0], sl, sizeof sl);
+        snprintf(sg, sizeof sg, "format:descriptor-level:%s", sl);
+        viol(sg, "%s: the independent reader rejects the file: %s", when, fc.err[0]);
         goto out;
     }
     if (fc_check_objects(&fc) != 0) {
-        mc_violation("format:object-level", "%s: %s", when, fc.err[0]);
+        char sl[80], sg[120];
+        slug(fc.err[0], sl, sizeof sl);
+        snprintf(sg, sizeof sg, "format:object-level:%s", sl);
+        viol(sg, "%s: %s", when, fc.err[0]);
         goto out;
     }
     mc_count("files_validated", 1);
     /* (b) + (c): read everything through the library */
     fid = Hopen(PATH, DFACC_READ, 0);
     if (fid == FAIL) {
-        mc_violation("library-cannot-open-own-file", "%s: Hopen(READ) fails on a file the library just closed", when);
+        viol("library-cannot-open-own-file", "%s: Hopen(READ) fails on a file the library just closed", when);
         goto out;
     }
     Vstart(fid);
@@ -240,13 +285,13 @@ verify_file(const char *when)
         }
         if (!ind) {
             if (!uns)
-                mc_violation("format:element-undecodable", "%s: (%u,%u): %s", when, d->tag, d->ref, fc.nerr ? fc.err[0] : "independent reader cannot decode the element");
+                viol("format:element-undecodable", "%s: (%u,%u): %s", when, d->tag, d->ref, fc.nerr ? fc.err[0] : "independent reader cannot decode the element");
             free(stored);
             continue;
         }
         int32 llen = Hlength(fid, base, d->ref);
         if (llen != ilen) {
-            mc_violation("content:length", "%s: (%u,%u): library reports length %d, the independent reader finds %ld bytes", when, base, d->ref, (int)llen, ilen);
+            viol("content:length", "%s: (%u,%u): library reports length %d, the independent reader finds %ld bytes", when, base, d->ref, (int)llen, ilen);
         }
         else if (ilen > 0) {
             uint8 *lb = malloc((size_t)ilen + 8);
@@ -255,7 +300,7 @@ verify_file(const char *when)
                 char a[64], b[64];
                 hex(lb, n > 0 ? n : 0, a, sizeof a);
                 hex(ind, ilen, b, sizeof b);
-                mc_violation("content:bytes", "%s: (%u,%u): library reads %d bytes %s, the independent reader decodes %ld bytes %s", when, base, d->ref, (int)n, a, ilen, b);
+                viol("content:bytes", "%s: (%u,%u): library reads %d bytes %s, the independent reader decodes %ld bytes %s", when, base, d->ref, (int)n, a, ilen, b);
             }
             free(lb);
         }
@@ -288,7 +333,7 @@ verify_file(const char *when)
                 continue;
             int32 vs = VSattach(fid, d->ref, "r");
             if (vs == FAIL) {
-                mc_violation("content:vdata-unattachable", "%s: Vdata (1962,%u) '%s' decodes independently but VSattach fails", when, d->ref, h.name);
+                viol("content:vdata-unattachable", "%s: Vdata (1962,%u) '%s' decodes independently but VSattach fails", when, d->ref, h.name);
                 continue;
             }
             int32 n = -1, il = -1, sz = -1;
@@ -302,12 +347,12 @@ verify_file(const char *when)
                 strcat(want, h.fname[k]);
             }
             if (n != h.nvert || il != h.interlace || strcmp(nm, h.name) || strcmp(cl, h.cls) || (h.nfields > 0 && strcmp(fl, want)))
-                mc_violation("content:vdata-header", "%s: Vdata (1962,%u): library says n=%d il=%d name='%s' class='%s' fields='%s'; file holds n=%ld il=%d name='%s' class='%s' fields='%s'",
+                viol("content:vdata-header", "%s: Vdata (1962,%u): library says n=%d il=%d name='%s' class='%s' fields='%s'; file holds n=%ld il=%d name='%s' class='%s' fields='%s'",
                              when, d->ref, (int)n, (int)il, nm, cl, fl, h.nvert, h.interlace, h.name, h.cls, want);
             if (VSfnattrs(vs, _HDF_VDATA) + 0 >= 0) {
                 int32 na = VSnattrs(vs);
                 if (na != h.nattrs)
-                    mc_violation("content:vdata-nattrs", "%s: Vdata (1962,%u): library reports %d attributes, the header lists %d", when, d->ref, (int)na, h.nattrs);
+                    viol("content:vdata-nattrs", "%s: Vdata (1962,%u): library reports %d attributes, the header lists %d", when, d->ref, (int)na, h.nattrs);
             }
             VSdetach(vs);
             mc_count("vdatas_compared", 1);
@@ -318,7 +363,7 @@ verify_file(const char *when)
                 continue;
             int32 vg = Vattach(fid, d->ref, "r");
             if (vg == FAIL) {
-                mc_violation("content:vgroup-unattachable", "%s: Vgroup (1965,%u) decodes independently but Vattach fails", when, d->ref);
+                viol("content:vgroup-unattachable", "%s: Vgroup (1965,%u) decodes independently but Vattach fails", when, d->ref);
                 fc_vg_free(&g);
                 continue;
             }
@@ -333,10 +378,10 @@ verify_file(const char *when)
                     if (tg[k] != g.tag[k] || rf[k] != g.ref[k])
                         bad = 1;
             if (bad)
-                mc_violation("content:vgroup", "%s: Vgroup (1965,%u): library says %d members name='%s' class='%s'; file holds %d members name='%s' class='%s' (or member lists differ)", when,
+                viol("content:vgroup", "%s: Vgroup (1965,%u): library says %d members name='%s' class='%s'; file holds %d members name='%s' class='%s' (or member lists differ)", when,
                              d->ref, (int)n, nm, cl, g.nvelt, g.name, g.cls);
             if (Vnattrs(vg) != g.nattrs)
-                mc_violation("content:vgroup-nattrs", "%s: Vgroup (1965,%u): library reports %d attributes, the record lists %d", when, d->ref, (int)Vnattrs(vg), g.nattrs);
+                viol("content:vgroup-nattrs", "%s: Vgroup (1965,%u): library reports %d attributes, the record lists %d", when, d->ref, (int)Vnattrs(vg), g.nattrs);
             free(tg);
             free(rf);
             free(nm);
@@ -353,7 +398,7 @@ verify_file(const char *when)
             for (int k = 0; k < nimg; k++) {
                 int32 ri = GRselect(G, k);
                 if (ri == FAIL) {
-                    mc_violation("content:image-unselectable", "%s: image %d of %d cannot be selected", when, k, (int)nimg);
+                    viol("content:image-unselectable", "%s: image %d of %d cannot be selected", when, k, (int)nimg);
                     continue;
                 }
                 char  nm[H4_MAX_GR_NAME + 1];
@@ -386,11 +431,11 @@ verify_file(const char *when)
                                 int32  st[2] = {0, 0};
                                 GRreqimageil(ri, il);
                                 if (GRreadimage(ri, st, NULL, dm, img) == FAIL)
-                                    mc_violation("content:image-unreadable", "%s: image '%s' cannot be read", when, nm);
+                                    viol("content:image-unreadable", "%s: image '%s' cannot be read", when, nm);
                                 else {
                                     swap_to_be(img, want, DFKNTsize(nt | DFNT_NATIVE));
                                     if (ilen != want || memcmp(img, ind, (size_t)want))
-                                        mc_violation("content:image", "%s: image '%s' %dx%dx%d: GRreadimage differs from the independently decoded data element (302,%u) of %ld bytes", when, nm,
+                                        viol("content:image", "%s: image '%s' %dx%dx%d: GRreadimage differs from the independently decoded data element (302,%u) of %ld bytes", when, nm,
                                                      (int)dm[0], (int)dm[1], (int)nc, g.ref[m], ilen);
                                 }
                                 free(img);
@@ -430,11 +475,11 @@ verify_file(const char *when)
                     ANreadann(a, txt, len + 1);
                     int skip = (t < 2) ? 4 : 0;
                     if (!ad || ad->len - skip != len || memcmp(bytes + ad->off + skip, txt, (size_t)len))
-                        mc_violation("content:annotation", "%s: annotation (%u,%u): ANreadann differs from the bytes stored in the file", when, atag, aref);
+                        viol("content:annotation", "%s: annotation (%u,%u): ANreadann differs from the bytes stored in the file", when, atag, aref);
                     else {
                         int32 off = -1, ln = -1;
                         if (ANgetdatainfo(a, &off, &ln) == FAIL || off != ad->off + skip || ln != len)
-                            mc_violation("datainfo:annotation", "%s: ANgetdatainfo(%u,%u) reports offset %d length %d, the text is at offset %d length %d", when, atag, aref, (int)off,
+                            viol("datainfo:annotation", "%s: ANgetdatainfo(%u,%u) reports offset %d length %d, the text is at offset %d length %d", when, atag, aref, (int)off,
                                          (int)ln, (int)(ad->off + skip), (int)len);
                     }
                     free(txt);
@@ -453,7 +498,7 @@ verify_file(const char *when)
         int32 S = SDstart(PATH, DFACC_READ), nds = 0, nat = 0;
         if (S == FAIL) {
             if (g_nsd)
-                mc_violation("library-cannot-open-own-file:SD", "%s: SDstart(READ) fails", when);
+                viol("library-cannot-open-own-file:SD", "%s: SDstart(READ) fails", when);
         }
         else {
             SDfileinfo(S, &nds, &nat);
@@ -500,13 +545,13 @@ verify_file(const char *when)
                         uint8 *val = calloc(1, (size_t)(nel * esz) + 8);
                         int32  st[H4_MAX_VAR_DIMS] = {0};
                         if (SDreaddata(sds, st, NULL, dm, val) == FAIL)
-                            mc_violation("content:sds-unreadable", "%s: SDS '%s' cannot be read", when, nm);
+                            viol("content:sds-unreadable", "%s: SDS '%s' cannot be read", when, nm);
                         else {
                             swap_to_be(val, nel * esz, esz);
                             long cmp = nel * esz < ilen ? nel * esz : ilen;
                             /* cells beyond the stored bytes are fill values supplied by the library: compare what is stored */
                             if (memcmp(val, ind, (size_t)cmp))
-                                mc_violation("content:sds", "%s: SDS '%s': SDreaddata differs from the independently decoded data element (702,%u)", when, nm, dd->ref);
+                                viol("content:sds", "%s: SDS '%s': SDreaddata differs from the independently decoded data element (702,%u)", when, nm, dd->ref);
                         }
                         free(val);
                         mc_count("sds_compared", 1);
@@ -515,18 +560,18 @@ verify_file(const char *when)
                             int32 coord[H4_MAX_VAR_DIMS] = {0};
                             int32 cnt = SDgetdatainfo(sds, coord, 0, 0, NULL, NULL);
                             if (cnt != FAIL && cnt > 1)
-                                mc_violation("datainfo:chunk-count", "%s: SDgetdatainfo on chunk 0 of '%s' reports %d blocks", when, nm, (int)cnt);
+                                viol("datainfo:chunk-count", "%s: SDgetdatainfo on chunk 0 of '%s' reports %d blocks", when, nm, (int)cnt);
                             if (cnt == 1) {
                                 int32 *o = malloc(sizeof *o), *l = malloc(sizeof *l);
                                 if (SDgetdatainfo(sds, coord, 0, 1, o, l) == FAIL)
-                                    mc_violation("datainfo:fails", "%s: SDgetdatainfo(chunk 0 of '%s') fails with info_count 1", when, nm);
+                                    viol("datainfo:fails", "%s: SDgetdatainfo(chunk 0 of '%s') fails with info_count 1", when, nm);
                                 else {
                                     int found = 0;
                                     for (int e = 0; e < next; e++)
                                         if (ext[e].off == o[0] && l[0] <= ext[e].len)
                                             found = 1;
                                     if (!found)
-                                        mc_violation("datainfo:wrong-location", "%s: SDgetdatainfo(chunk 0 of '%s') reports offset %d length %d, no stored chunk lies there", when, nm,
+                                        viol("datainfo:wrong-location", "%s: SDgetdatainfo(chunk 0 of '%s') reports offset %d length %d, no stored chunk lies there", when, nm,
                                                      (int)o[0], (int)l[0]);
                                 }
                                 free(o);
@@ -630,7 +675,7 @@ fail_op(const mc_op *op, const char *what)
 {
     char sig[96];
     snprintf(sig, sizeof sig, "legal-operation-failed:%s:%s", OPN[op->code], what);
-    mc_violation(sig, "%s(%d,%d): %s failed on a legal request", OPN[op->code], op->a[0], op->a[1], what);
+    viol(sig, "%s(%d,%d): %s failed on a legal request", OPN[op->code], op->a[0], op->a[1], what);
     return 1;
 }
 
@@ -643,6 +688,8 @@ apply(const mc_op *op)
     g_nops++;
     switch (op->code) {
         case OP_PUT:
+            if (g_kind[a0] == 3)
+                snprintf(g_ctx, sizeof g_ctx, "rewrite-of-compressed-element");
             if (Hputelement(fid, ETAG, (uint16)a0, PAT + g_nops, a1) != a1) {
                 /* replacing a special element with Hputelement is allowed to be refused */
                 if (elem_exists(a0))
@@ -653,10 +700,12 @@ apply(const mc_op *op)
         case OP_DUP:
             if (Hdupdd(fid, ETAG, (uint16)a1, ETAG, (uint16)a0) == FAIL)
                 return fail_op(op, "Hdupdd");
+            g_kind[a1] = g_kind[a0];
             break;
         case OP_DEL:
             if (Hdeldd(fid, ETAG, (uint16)a0) == FAIL)
                 return fail_op(op, "Hdeldd");
+            g_kind[a0] = 0;
             break;
         case OP_LINKED:
             aid = HLcreate(fid, ETAG, (uint16)a0, 4, 2);
@@ -667,6 +716,7 @@ apply(const mc_op *op)
                 return fail_op(op, "Hwrite");
             }
             Hendaccess(aid);
+            g_kind[a0] = 1;
             break;
         case OP_EXT:
             aid = HXcreate(fid, ETAG, (uint16)a0, EXTF, 3 * a0, 0);
@@ -677,6 +727,7 @@ apply(const mc_op *op)
                 return fail_op(op, "Hwrite");
             }
             Hendaccess(aid);
+            g_kind[a0] = 2;
             break;
         case OP_COMP: {
             comp_info  ci;
@@ -694,9 +745,12 @@ apply(const mc_op *op)
                 return fail_op(op, "Hwrite");
             }
             Hendaccess(aid);
+            g_kind[a0] = 3;
             break;
         }
         case OP_APPEND:
+            if (g_kind[a0] == 3)
+                snprintf(g_ctx, sizeof g_ctx, "rewrite-of-compressed-element");
             aid = Hstartaccess(fid, ETAG, (uint16)a0, DFACC_RDWR);
             if (aid == FAIL)
                 return fail_op(op, "Hstartaccess");
@@ -954,9 +1008,11 @@ static void
 terminal(void)
 {
     if (close_session()) {
-        mc_violation("close-failed", "Vend/Hclose failed at the end of a history of successful operations");
+        viol("close-failed", "Vend/Hclose failed at the end of a history of successful operations");
         return;
     }
+    if (mc_replaying && getenv("C02_EXPORT"))
+        vfs_export(PATH, getenv("C02_EXPORT"));
     verify_file("after final close");
 }
 static void
@@ -967,20 +1023,52 @@ fmt_op(const mc_op *op, char *buf, size_t n)
 static mc_harness H = {enum_ops, apply, key, terminal, fmt_op, NULL};
 
 typedef struct {
-    int ndds, cache, depth;
+    int ndds, cache, start, depth;
 } cfg_t;
+static int g_start;
+
+/* start state 1: the last descriptor block is exactly full, so the next descriptor forces a new block at the end of the file */
+static int
+prologue(void)
+{
+    vfs_remove_file(PATH);
+    vfs_remove_file(EXTF);
+    g_since = MC_H0;
+    g_ctx[0] = 0;
+    memset(g_kind, 0, sizeof g_kind);
+    if (open_session(1))
+        return -1;
+    if (g_start == 1) {
+        for (int i = 0; i < 40; i++) {
+            /* the first two are elements of the alphabet (so that aliases of them can be made), the rest are fillers */
+            if (Hputelement(fid, ETAG, (uint16)(i < 2 ? 1 + i : 10 + i), PAT + i, 3) != 3 || Hsync(fid) == FAIL)
+                return -1;
+            long     sz;
+            uint8_t *b = vfs_dup_bytes(vfs_lookup(PATH), &sz);
+            fc_file  fc;
+            memset(&fc, 0, sizeof fc);
+            int bad = fc_parse(&fc, b, sz), nfree = fc.nfree;
+            fc_free(&fc);
+            free(b);
+            if (bad)
+                return -1;
+            if (nfree == 0)
+                break;
+        }
+        if (close_session() || open_session(0))
+            return -1;
+    }
+    return 0;
+}
 static void
 root(void *arg)
 {
     cfg_t *c = arg;
-    g_ndds = c->ndds, g_cache = c->cache;
-    int cfg[2] = {g_ndds, g_cache};
-    mc_set_config(cfg, 2, "ndds=%d cache=%s", g_ndds, g_cache ? "on" : "off");
-    vfs_remove_file(PATH);
-    vfs_remove_file(EXTF);
-    g_since = MC_H0;
-    if (open_session(1)) {
-        mc_harness_error("cannot create the file");
+    g_ndds = c->ndds, g_cache = c->cache, g_start = c->start;
+    int cfg[3] = {g_ndds, g_cache, g_start};
+    mc_set_config(cfg, 3, "ndds=%d cache=%s start=%s", g_ndds, g_cache ? "on" : "off", g_start ? "descriptor block exactly full" : "empty file");
+    if (prologue()) {
+        mc_harness_error("cannot prepare the start state");
         return;
     }
     mc_explore(&H, c->depth, 99);
@@ -989,25 +1077,22 @@ root(void *arg)
 int
 C02_main(const char *tier, const char *replay)
 {
-    for (int i = 0; i < 64; i++)
+    for (int i = 0; i < 256; i++)
         PAT[i] = (uint8)(i * 11 + 3);
     if (replay) {
         int   cfg[32], ncfg, nops;
         mc_op ops[MC_MAXDEPTH];
-        if (mc_load_replay(replay, cfg, &ncfg, ops, &nops, MC_MAXDEPTH) || ncfg < 2)
+        if (mc_load_replay(replay, cfg, &ncfg, ops, &nops, MC_MAXDEPTH) || ncfg < 3)
             return 2;
-        g_ndds = cfg[0], g_cache = cfg[1];
-        vfs_remove_file(PATH);
-        vfs_remove_file(EXTF);
-        g_since = MC_H0;
-        printf("replay C02: ndds=%d cache=%d, %d ops\n", g_ndds, g_cache, nops);
-        if (open_session(1))
+        g_ndds = cfg[0], g_cache = cfg[1], g_start = cfg[2];
+        printf("replay C02: ndds=%d cache=%d start=%d, %d ops\n", g_ndds, g_cache, g_start, nops);
+        if (prologue())
             return 0;
         mc_replay_ops(&H, ops, nops);
         return 0;
     }
     int          thorough = strcmp(tier, "thorough") == 0;
-    static cfg_t cfgs[8];
+    static cfg_t cfgs[16];
     int          nc = 0, maxd = thorough ? 5 : 3;
     for (int d = 1; d <= maxd && !mc_deadline_hit(); d++) {
         char lbl[64];
@@ -1017,7 +1102,8 @@ C02_main(const char *tier, const char *replay)
         static const int NDDS[] = {4, 16, 5};
         for (int i = 0; i < (thorough ? 3 : 2); i++)
             for (int c = 1; c >= 0; c--)
-                cfgs[nc++] = (cfg_t){NDDS[i], c, d};
+                for (int st = 0; st < 2; st++)
+                    cfgs[nc++] = (cfg_t){NDDS[i], c, st, d};
         for (int i = 0; i < nc; i++)
             mc_spawn_root(root, &cfgs[i], 4);
         mc_wait_roots();
